@@ -783,12 +783,13 @@ return 1;""",
 
         stmt0 = statements.compute_name(stmts)
         intent_blk = lookup_stmts(stmts)
+        stmt1 = intent_blk.name  # intent_blk is cleared for py_default
         output = fileinfo.GetSetBody
         ########################################
         # getter
         output.append("")
         if options.debug:
-            self.document_stmts(output, ast, stmt0, intent_blk.name)
+            self.document_stmts(output, ast, stmt0, stmt1)
         append_format(
             output,
             "static PyObject *{PY_getter}("
@@ -823,7 +824,7 @@ return 1;""",
 
             output.append("")
             if options.debug:
-                self.document_stmts(output, ast, stmt0, intent_blk.name)
+                self.document_stmts(output, ast, stmt0, stmt1)
             append_format(
                 output,
                 "static int {PY_setter}("
